@@ -223,6 +223,15 @@ def gen_spec(rng, audit_types=("CARD_COMPARISON", "ONEAUDIT", "POLLING"), n_cont
                     c = rng.choice(extra)
                     v[c] = gen_ballot(rng, contests[c])
             mvrs[str(i)] = {"kind": "votes", "votes": v}
+    if rng.random() < 0.15:
+        # a batch whose label is falsy (batch number 0, an empty string): labels are opaque keys
+        b = rng.choice(sorted(pooled_batches)) if pooled_batches else rng.randrange(n_batches)
+        old, new = f"{7 + b}-{b + 1}", rng.choice((0, ""))
+        for cd in cards:
+            if cd["tally_pool"] == old:
+                cd["tally_pool"] = new
+        if ph_pool[0] == old:
+            ph_pool[0] = new
     sn = {"kind": "sha256", "seed": rng.randrange(10 ** 12)} if rng.random() < 0.6 else {"kind": "explicit", "nums": None}
     return {"use_style": use_style, "max_cards": max_cards, "contests": contests, "cards": cards, "phantom_pool": ph_pool,
             "mvrs": mvrs, "sample_nums": sn, "direct_supermajority": rng.random() < 0.5,
@@ -351,6 +360,7 @@ class Sim:
         self.real_list = self.cvr_list   # the caller's own list object (must not be touched by make_phantoms)
         self.cvr_list, self.n_phantoms = CVR.make_phantoms(audit=self.audit, contests=self.contests, cvr_list=self.cvr_list,
                                                            prefix="phantom-1-", tally_pool=tp, pool=pool)
+        self.phantom_contests = [set(c.votes) for c in self.cvr_list[self.n_real:]]
         return self.cvr_list, self.n_phantoms
 
     def make_assertions(self):
@@ -491,6 +501,23 @@ class Sim:
                 return 0.0
             return ref_assort(self.spec["contests"][cid], self.desc[cid][name], None)
         return ref_assort(self.spec["contests"][cid], self.desc[cid][name], v)
+
+    def ref_population(self, cid):
+        """Reference: the cards under audit for a contest, independent of what the library's pool expansion did.  Without
+        style: every card.  With style: cards whose own record lists the contest (real cards: the spec; phantoms: the
+        contests make_phantoms gave them) plus every pooled card of a pooled batch in which some card lists it (ONEAudit:
+        the batch is audited as a whole for every contest on any of its cards)."""
+        n = len(self.cvr_list)
+        if not self.use_style:
+            return list(range(n))
+        own = []
+        for i, c in enumerate(self.cvr_list):
+            own.append(set(self.spec["cards"][i]["votes"]) if i < self.n_real else set(self.phantom_contests[i - self.n_real]))
+        pools = {}
+        for i, c in enumerate(self.cvr_list):
+            if c.pool:
+                pools.setdefault(c.tally_pool, set()).update(own[i])
+        return [i for i, c in enumerate(self.cvr_list) if cid in own[i] or (c.pool and cid in pools.get(c.tally_pool, ()))]
 
     def audited_indices(self, cid):
         return [i for i, c in enumerate(self.cvr_list) if (not self.use_style) or c.has_contest(cid)]
